@@ -18,6 +18,7 @@ import (
 	"fmt"
 	"math/big"
 	"os"
+	"runtime"
 	"sort"
 	"strings"
 	"sync"
@@ -45,6 +46,16 @@ const actorP = -1 // the persister (the InsertLogs gate)
 // for never came: a "stall").  Each costs a time limit; after a few of them the limit of this process is shortened.  A
 // stalled run is carried on and judged like every other run (and flagged).
 var engWatchdogs int
+
+func engStallLimit() time.Duration {
+	switch {
+	case engWatchdogs >= 12: // … and it is not the machine: a dozen runs stalled (a whole check costs hours otherwise)
+		return 40 * time.Millisecond
+	case engWatchdogs >= 3: // this process has met a protocol the scheduler does not predict: do not burn the full limit every time
+		return 300 * time.Millisecond
+	}
+	return 4 * time.Second
+}
 
 // ------------------------------------------------------------------ store: durable log + folds
 
@@ -321,6 +332,7 @@ type engArrival struct {
 	actor int
 	point string
 	kind  int // 0 parked at a yield, 1 finished, 2 gate arrival
+	gen   int // gate arrival: the commander generation whose runner makes the call
 	logs  []*ledger.ChainedLog
 	resp  J
 }
@@ -710,6 +722,7 @@ type engReq struct {
 	TS     int64  `json:"ts"`
 	Sends  int    `json:"sends"` // > 1: the script has this many sends (source -> m0, m1, …), one transaction with many postings
 	Pass   int64  `json:"pass"`  // > 0: a chained transaction, two postings: world -> src `amount`, then src -> dst `pass`
+	Empty  bool   `json:"empty"` // setmeta: the metadata map of the request is EMPTY (key / val are not sent)
 }
 
 func (r engReq) script() ledger.RunScript {
@@ -770,8 +783,27 @@ type engPlan struct {
 	FailRead        int    `json:"fail_read"`  // > 0: the k-th keyed store lookup answers a transient error
 	SlowStore       bool   `json:"slow_store"` // the store answers InsertLogs only when nothing else can run (longest persistence latency)
 	Cancel          int    `json:"cancel"`     // > 0: from scheduling step k on, the context of one request waiting for persistence is cancelled
+	CancelReq       int    `json:"cancel_req"` // > 0: … of THIS request (index + 1), once it waits; 0: of the first one that waits
 	First           bool   `json:"first"`      // beyond the explicit prefix take the first enabled actor (used by the exhaustive search)
 	DFS             int    `json:"dfs"`        // > 0: enumerate every schedule (depth-first over the choices), at most this many
+	// Goals: a directed prefix of the schedule.  Each goal names a request and where it is to be brought: parked at that yield
+	// point, "waiting" (resumed from "wait": blocked on the persistence of its own log) or "finish" (answered).  While the first
+	// goal is not reached its request is the one that runs; when it cannot run and a batch is inside InsertLogs, the store answers
+	// (whatever SlowStore says); when it cannot be helped (queued for its locks, crashed) the goal is dropped.  Once the goals are
+	// used up the schedule goes on as the rest of the plan says.  Goal-driven steps are not recorded in choices / counts.
+	Goals []engGoal `json:"goals"`
+	// CloseAt > 0: from scheduling step k on, the first time a batch is INSIDE InsertLogs (the gate is closed), the commander is
+	// stopped gracefully (Commander.Close, in a goroutine of its own) and a new one is initialised on the same store ("restart
+	// without death").  On the unchanged code Close returns only after that InsertLogs has returned: the harness sees that Close is
+	// still out, lets the store answer, waits for Close, and re-initialises (trace: close, gate, close_returned "after-insert", crash).
+	// A Close that comes back while the insert is still held is recorded (close_returned "while-insert-in-flight"); the new commander
+	// is initialised at once, the next phase runs, and only then the held insert of the stopped commander is let through (late_insert).
+	CloseAt int `json:"close"`
+}
+
+type engGoal struct {
+	Req   int    `json:"req"`
+	Until string `json:"until"`
 }
 
 var engVisible = map[string]bool{"start": true, "ik-lookup": true, "ref-lookup": true, "lock": true, "read-balances": true, "alloc-txid": true,
@@ -820,10 +852,9 @@ func runEngineSchedule(reqs []engReq, funding [][]string, ameta [][]string, plan
 		gen := s.gen
 		st.gate = func(logs []*ledger.ChainedLog) error {
 			ch := s.resumeCh(actorP)
-			s.arrive <- engArrival{actor: actorP, kind: 2, logs: logs}
+			s.arrive <- engArrival{actor: actorP, kind: 2, logs: logs, gen: gen}
 			// a gate call of a dead generation is never resumed
 			err := <-ch
-			_ = gen
 			return err
 		}
 		mon.inner = bus.NewLedgerMonitor(&engPublisher{s: s, st: st}, "l") // a new process has a new monitor
@@ -854,6 +885,7 @@ func runEngineSchedule(reqs []engReq, funding [][]string, ameta [][]string, plan
 	step := 0
 	crashed := []int{}
 	lastActor := -2
+	goals, goalSteps := append([]engGoal{}, plan.Goals...), 0
 	choices, counts := []int{}, []int{}
 	cancels := map[int]context.CancelFunc{}
 
@@ -886,10 +918,14 @@ func runEngineSchedule(reqs []engReq, funding [][]string, ameta [][]string, plan
 			case "revert":
 				tx, err = c.RevertTransaction(ctx, params, big.NewInt(rq.Target), rq.Force)
 			case "setmeta":
+				md := metadata.Metadata{rq.Key: rq.Val}
+				if rq.Empty {
+					md = metadata.Metadata{}
+				}
 				if rq.Acct != "" {
-					err = c.SaveMeta(ctx, params, ledger.MetaTargetTypeAccount, rq.Acct, metadata.Metadata{rq.Key: rq.Val})
+					err = c.SaveMeta(ctx, params, ledger.MetaTargetTypeAccount, rq.Acct, md)
 				} else {
-					err = c.SaveMeta(ctx, params, ledger.MetaTargetTypeTransaction, big.NewInt(rq.Target), metadata.Metadata{rq.Key: rq.Val})
+					err = c.SaveMeta(ctx, params, ledger.MetaTargetTypeTransaction, big.NewInt(rq.Target), md)
 				}
 			case "delmeta":
 				if rq.Acct != "" {
@@ -920,6 +956,7 @@ func runEngineSchedule(reqs []engReq, funding [][]string, ameta [][]string, plan
 	// the scheduler does not see) the run goes on with whoever is parked and is judged like any other — it is also flagged,
 	// because the scheduler's picture of the protocol was wrong.  An arrival nobody predicted is simply taken.
 	stalls := 0
+	gateReleases := 0
 	noteAppend := func(a int) { // with s.mu held
 		if a < 0 || s.actorGen[a] != s.gen {
 			return
@@ -979,6 +1016,12 @@ func runEngineSchedule(reqs []engReq, funding [][]string, ameta [][]string, plan
 			}
 			s.trace = append(s.trace, fin)
 		case 2:
+			if e.gen != s.gen {
+				// the runner of a commander that is gone reaches the store late (nobody predicted the call: it was not waited for
+				// before the restart): it is never answered, and it must not be taken for a call of the present commander
+				s.trace = append(s.trace, J{"late_gate": J{"generation": e.gen, "batch": len(e.logs)}})
+				break
+			}
 			s.parked[actorP] = "gate"
 			s.gateBatch = len(e.logs)
 			s.expectGate--
@@ -1002,10 +1045,7 @@ func runEngineSchedule(reqs []engReq, funding [][]string, ameta [][]string, plan
 				s.expect, s.expectGate = 0, 0
 				return
 			}
-			limit := 4 * time.Second
-			if engWatchdogs >= 3 { // this process has met a protocol the scheduler does not predict: do not burn the full limit every time
-				limit = 300 * time.Millisecond
-			}
+			limit := engStallLimit()
 			select {
 			case e := <-s.arrive:
 				take(e)
@@ -1059,14 +1099,118 @@ func runEngineSchedule(reqs []engReq, funding [][]string, ameta [][]string, plan
 		s.mu.Unlock()
 		newCommander()
 	}
+	// Graceful stop + reopen (plan.CloseAt).  Called while a batch is inside InsertLogs (the gate call is parked).
+	var held chan error // the gate call of a commander whose Close came back while its insert was still in flight
+	heldN, heldSince := 0, -1
+	var closeInfo J
+	curPhase := 0
+	doClose := func() {
+		s.mu.Lock()
+		n := s.gateBatch
+		delete(s.parked, actorP)
+		s.trace = append(s.trace, J{"close": step, "batch_in_store": n})
+		s.mu.Unlock()
+		c := cmd
+		ret := make(chan struct{})
+		go func() {
+			c.Close()
+			close(ret)
+		}()
+		// has Close come back?  On the unchanged code it cannot (the runner's stop waits for the worker, the worker is inside
+		// InsertLogs, the gate is ours): nothing arrives however long one waits; a Close that does not wait comes back within
+		// microseconds.  The limit below only bounds how long the passing path looks at something that must not happen.
+		early := false
+		for k := 0; k < 100 && !early; k++ {
+			runtime.Gosched()
+			select {
+			case <-ret:
+				early = true
+			default:
+				if k >= 20 {
+					time.Sleep(40 * time.Microsecond)
+				}
+			}
+		}
+		closeInfo = J{"step": step, "batch_in_store": n, "phase": curPhase}
+		if early {
+			closeInfo["returned"] = "while-insert-in-flight"
+			s.mu.Lock()
+			s.trace = append(s.trace, J{"close_returned": "while-insert-in-flight"})
+			s.mu.Unlock()
+			held, heldN, heldSince = s.resumeCh(actorP), n, curPhase
+			doCrash() // (not a death: the same bookkeeping — a new commander initialised from the store, the old requests never answer)
+			return
+		}
+		// the store answers; in the stop branch nobody is woken (the runner returns without Terminated)
+		s.mu.Lock()
+		gateReleases++
+		s.trace = append(s.trace, J{"a": actorP, "at": "gate", "n": 1, "batch": n, "ok": true, "stopping": true})
+		s.persisted += n
+		s.mu.Unlock()
+		st.mu.Lock()
+		before := len(st.logs)
+		st.mu.Unlock()
+		s.resumeCh(actorP) <- nil
+		for t0 := time.Now(); ; {
+			st.mu.Lock()
+			k := len(st.logs)
+			st.mu.Unlock()
+			if k >= before+n || time.Since(t0) > 4*time.Second {
+				break
+			}
+			time.Sleep(20 * time.Microsecond)
+		}
+		select {
+		case <-ret:
+			closeInfo["returned"] = "after-insert"
+		case <-time.After(4 * time.Second):
+			closeInfo["returned"] = "never"
+			stalls++
+			s.mu.Lock()
+			s.trace = append(s.trace, J{"stall": J{"close": "did not return after the insert returned", "step": step}})
+			s.mu.Unlock()
+		}
+		s.mu.Lock()
+		s.trace = append(s.trace, J{"close_returned": closeInfo["returned"]})
+		s.mu.Unlock()
+		// drain arrivals nobody expects (a runner that wakes its requests while stopping)
+		for more := true; more; {
+			select {
+			case e := <-s.arrive:
+				take(e)
+			case <-time.After(200 * time.Microsecond):
+				more = false
+			}
+		}
+		doCrash()
+	}
+	releaseHeld := func() {
+		st.mu.Lock()
+		before := len(st.logs)
+		st.mu.Unlock()
+		held <- nil
+		for t0 := time.Now(); ; {
+			st.mu.Lock()
+			k := len(st.logs)
+			st.mu.Unlock()
+			if k >= before+heldN || time.Since(t0) > 4*time.Second {
+				break
+			}
+			time.Sleep(20 * time.Microsecond)
+		}
+		s.mu.Lock()
+		s.trace = append(s.trace, J{"late_insert": heldN})
+		s.mu.Unlock()
+		held = nil
+	}
 	phases := 0
 	for _, rq := range reqs {
 		if rq.Phase+1 > phases {
 			phases = rq.Phase + 1
 		}
 	}
-	gateReleases := 0
 	for ph := 0; ph < phases; ph++ {
+		curPhase = ph
 		for i, rq := range reqs {
 			if rq.Phase == ph {
 				start(i)
@@ -1079,10 +1223,17 @@ func runEngineSchedule(reqs []engReq, funding [][]string, ameta [][]string, plan
 				doCrash()
 				break // the phase is over: its requests never answer
 			}
+			if _, inStore := s.parked[actorP]; plan.CloseAt > 0 && step >= plan.CloseAt && inStore {
+				plan.CloseAt = 0
+				doClose()
+				break // the phase is over: the requests of the stopped commander never answer
+			}
 			if plan.Cancel > 0 && step >= plan.Cancel { // the caller of one request that waits for persistence goes away
 				var ws []int
 				for w := range s.waiting {
-					ws = append(ws, w)
+					if plan.CancelReq == 0 || w == plan.CancelReq-1 {
+						ws = append(ws, w)
+					}
 				}
 				sort.Ints(ws)
 				if len(ws) > 0 {
@@ -1124,14 +1275,56 @@ func runEngineSchedule(reqs []engReq, funding [][]string, ameta [][]string, plan
 			}
 			// choice
 			ch := -1
-			if plan.Coarse && lastActor != actorP { // keep running the same request through its invisible steps
+			byGoal := false
+			for len(goals) > 0 && ch < 0 { // the directed prefix of the plan
+				g := goals[0]
+				if g.Req < 0 || g.Req >= len(reqs) || goalSteps > 80 {
+					goals, goalSteps = goals[1:], 0
+					continue
+				}
+				if reqs[g.Req].Phase > ph {
+					break // its request has not been submitted yet
+				}
+				at, isParked := s.parked[g.Req]
+				reached := false
+				switch g.Until {
+				case "finish":
+					reached = finished[g.Req]
+				case "waiting":
+					reached = s.waiting[g.Req]
+				default:
+					reached = isParked && at == g.Until
+				}
+				if reached || finished[g.Req] {
+					goals, goalSteps = goals[1:], 0
+					continue
+				}
+				if isParked {
+					for k, x := range enabled {
+						if x == g.Req {
+							ch = k
+						}
+					}
+				} else if _, inStore := s.parked[actorP]; inStore { // it waits for the store (or for somebody who does)
+					if enabled[len(enabled)-1] != actorP {
+						enabled = append(enabled, actorP)
+					}
+					ch = len(enabled) - 1
+				} else {
+					goals, goalSteps = goals[1:], 0 // queued for its locks, or gone with a stopped commander: nothing to drive
+					continue
+				}
+				goalSteps++
+				byGoal = true
+			}
+			if ch < 0 && plan.Coarse && lastActor != actorP { // keep running the same request through its invisible steps
 				for k, x := range enabled {
 					if x == lastActor && !engVisible[s.parked[x]] {
 						ch = k
 					}
 				}
 			}
-			if ch < 0 {
+			if ch < 0 && !byGoal {
 				switch {
 				case len(choices) < len(plan.Plan):
 					ch = plan.Plan[len(choices)] % len(enabled)
@@ -1160,7 +1353,10 @@ func runEngineSchedule(reqs []engReq, funding [][]string, ameta [][]string, plan
 					// the runner dies: nothing more happens in this generation; treat as crash at the next step
 					plan.Crash = step + 1
 					s.mu.Unlock()
-					s.resumeCh(actorP) <- fmt.Errorf("injected store failure")
+					select {
+					case s.resumeCh(actorP) <- fmt.Errorf("injected store failure"):
+					case <-time.After(engStallLimit()):
+					}
 				} else {
 					n := s.gateBatch
 					s.persisted += n
@@ -1188,15 +1384,30 @@ func runEngineSchedule(reqs []engReq, funding [][]string, ameta [][]string, plan
 					}
 					s.mu.Unlock()
 					before := len(st.logs)
-					s.resumeCh(actorP) <- nil
-					for { // InsertLogs appends right after the gate; wait for it so that reads are well defined
+					answered := true
+					select {
+					case s.resumeCh(actorP) <- nil:
+					case <-time.After(engStallLimit()): // nobody is inside InsertLogs after all
+						answered = false
+					}
+					for t0 := time.Now(); answered; { // InsertLogs appends right after the gate; wait for it so that reads are well defined
 						st.mu.Lock()
 						k := len(st.logs)
 						st.mu.Unlock()
 						if k >= before+n {
 							break
 						}
+						if time.Since(t0) > engStallLimit() {
+							answered = false
+							break
+						}
 						time.Sleep(20 * time.Microsecond)
+					}
+					if !answered { // the scheduler's picture of the store call was wrong: flagged like every other wrong prediction
+						s.mu.Lock()
+						s.trace = append(s.trace, J{"stall": J{"store": "the call answered is not the batch the scheduler saw arrive", "step": step}})
+						s.mu.Unlock()
+						stalls++
 					}
 				}
 			} else {
@@ -1222,12 +1433,18 @@ func runEngineSchedule(reqs []engReq, funding [][]string, ameta [][]string, plan
 			}
 			step++
 		}
+		if held != nil && heldSince < ph {
+			releaseHeld() // the insert of the stopped commander lands after the new one has worked for a phase
+		}
 		if plan.HasCrashAfter && plan.CrashAfterPhase == ph {
 			waitQuiet()
 			doCrash()
 		}
 	}
 	waitQuiet()
+	if held != nil {
+		releaseHeld()
+	}
 
 	// ---- summary
 	durable := []any{}
@@ -1251,8 +1468,12 @@ func runEngineSchedule(reqs []engReq, funding [][]string, ameta [][]string, plan
 	}
 	respMu.Unlock()
 	sort.Ints(crashed)
-	return J{"trace": s.trace, "durable": durable, "responses": rs, "events": append([]J{}, s.events...), "events_iface": append([]J{}, s.ifaceEvents...), "crashed": append([]int{}, crashed...), "watchdog": stalls > 0, "stalls": stalls, "steps": step,
+	out = J{"trace": s.trace, "durable": durable, "responses": rs, "events": append([]J{}, s.events...), "events_iface": append([]J{}, s.ifaceEvents...), "crashed": append([]int{}, crashed...), "watchdog": stalls > 0, "stalls": stalls, "steps": step,
 		"n_funding": nFunding, "choices": choices, "counts": counts}
+	if closeInfo != nil {
+		out["close"] = closeInfo
+	}
+	return out
 }
 
 func execEngine(in J) J {
@@ -1821,6 +2042,225 @@ func genEngine(r *rng, n int, tier string, emit0 func(J)) {
 			}
 		}
 		emit(J{"requests": reqs, "funding": funding, "metadata": meta, "plans": plans, "twin": twin, "series": 2, "shape": e % nShapes})
+	}
+
+	// ---- third series (n/3 more scenarios, from a generator of its own: the two series above are what they were): situations
+	// that need a particular overlap of particular requests.  Each scenario carries seeded random plans AND directed ones (goals:
+	// the overlap is brought about, the rest of the schedule is random); how often each situation actually HAPPENED is counted by
+	// checks/enginelib.py: history_shapes.
+	ry := &rng{s: r.s ^ 0x3a7e5e1175c0de}
+	const nShapes3 = 5
+	goal := func(req int, until string) J { return J{"req": req, "until": until} }
+	directed := func(g *rng, extra J, goals ...J) J {
+		pl := J{"seed": g.next() % 1000000, "crash": -1, "fail": -1, "plan": []int{}, "coarse": false, "goals": goals}
+		for k, v := range extra {
+			pl[k] = v
+		}
+		return pl
+	}
+	for e := 0; e < n/3; e++ {
+		g := ry.fork()
+		funding := [][]string{}
+		for _, a := range accts {
+			funding = append(funding, []string{a, "USD", fmt.Sprint(50 + 50*g.n(3))})
+		}
+		meta := [][]string{}
+		for _, a := range accts {
+			meta = append(meta, []string{"registry", a, a})
+		}
+		nf := len(funding)
+		var reqs, plans []J
+		name := ""
+		switch e % nShapes3 {
+		case 0: // payer switched: the source of a create is looked up from metadata, a metadata write names another funded
+			// account while that request is on its way, a third request spends from that other account
+			name = "payer switched"
+			perm := []int{0, 1, 2}
+			for i := 2; i > 0; i-- {
+				j := g.n(i + 1)
+				perm[i], perm[j] = perm[j], perm[i]
+			}
+			p0, p1 := accts[perm[0]], accts[perm[1]]
+			f := 50 + 50*g.n(2)
+			funding[perm[0]][2], funding[perm[1]][2] = fmt.Sprint(f+50*g.n(2)), fmt.Sprint(f)
+			x, y := f, f
+			if g.p(40) {
+				x, y = f/2+10, f/2+10 // each alone is covered, both together are not
+			}
+			b := J{"kind": "create", "phase": 0, "dry": false, "ik": "", "ref": "", "src": p0, "via": "meta", "dst": "dave", "amount": x}
+			m := J{"kind": "setmeta", "phase": 0, "dry": false, "ik": "", "ref": "", "acct": "registry", "key": p0, "val": p1}
+			a := J{"kind": "create", "phase": 0, "dry": false, "ik": "", "ref": "", "src": p1, "via": g.pick([]string{"lit", "var", "meta"}), "dst": "erin", "amount": y}
+			reqs = []J{b, m, a}
+			if g.p(30) { // a second request paying through the registry entry
+				reqs = append(reqs, J{"kind": "create", "phase": 0, "dry": false, "ik": "", "ref": "", "src": p0, "via": "meta", "dst": "frank", "amount": 10})
+			}
+			if g.p(30) { // … and one more after everything has settled
+				reqs = append(reqs, J{"kind": "create", "phase": 1, "dry": false, "ik": "", "ref": "", "src": p0, "via": "meta", "dst": "dave", "amount": 10})
+			}
+			plans = mkPlans(g, len(reqs), true)[:4]
+			plans = append(plans,
+				directed(g, nil, goal(0, "lock"), goal(1, "finish"), goal(2, "waiting"), goal(0, "finish")),
+				directed(g, nil, goal(0, "lock"), goal(1, "finish"), goal(0, "commit"), goal(2, "finish")),
+				directed(g, nil, goal(0, "read-balances"), goal(1, "finish"), goal(2, "waiting"), goal(0, "finish")),
+				directed(g, J{"slow_store": true}, goal(1, "finish")))
+		case 1: // a forced revert of a funding transaction (it debits the funded account) races a plain payment from that account
+			name = "forced revert races a payment"
+			t := g.n(nf)
+			p := accts[t]
+			f := 50 + 50*g.n(3)
+			funding[t][2] = fmt.Sprint(f)
+			amt := f
+			if g.p(40) {
+				amt = f / 2
+			}
+			rv := J{"kind": "revert", "phase": 0, "dry": false, "ik": "", "ref": "", "target": t, "force": !g.p(20)}
+			pay := J{"kind": "create", "phase": 0, "dry": false, "ik": "", "ref": "", "src": p, "via": g.pick([]string{"lit", "var", "meta"}), "dst": "dave", "amount": amt}
+			reqs = []J{rv, pay}
+			if g.p(35) { // somebody else writes at the same time
+				reqs = append(reqs, J{"kind": "create", "phase": 0, "dry": false, "ik": "", "ref": "", "src": accts[(t+1)%nf], "via": "lit", "dst": "dave", "amount": 10})
+			}
+			if g.p(40) { // and the account is used again afterwards
+				reqs = append(reqs, J{"kind": "create", "phase": 1, "dry": false, "ik": "", "ref": "", "src": p, "via": "lit", "dst": "dave", "amount": 10})
+			}
+			plans = mkPlans(g, len(reqs), true)[:4]
+			for k, pl := range plans {
+				if k%2 == 0 && pl["crash"] == -1 && pl["fail"] == -1 {
+					pl["slow_store"] = true
+				}
+			}
+			plans = append(plans,
+				directed(g, nil, goal(0, "waiting"), goal(1, "finish")),
+				directed(g, nil, goal(1, "commit"), goal(0, "waiting"), goal(1, "finish")),
+				directed(g, J{"slow_store": true}, goal(0, "read-balances"), goal(1, "lock"), goal(0, "waiting"), goal(1, "finish")))
+		case 2: // set-metadata with an EMPTY map: on an account, on an existing and on a missing transaction, with and without
+			// idempotency key, then the retry of a key
+			name = "empty metadata write"
+			k := 3 + g.n(3)
+			ph := 0
+			var keyed []J
+			for i := 0; i < k; i++ {
+				var q J
+				switch g.n(5) {
+				case 0, 1:
+					q = J{"kind": "setmeta", "acct": g.pick([]string{"alice", "bob", "zoe"}), "key": "k1", "val": "v", "empty": true}
+				case 2:
+					q = J{"kind": "setmeta", "target": g.n(nf), "key": "k1", "val": "v", "empty": true}
+				case 3:
+					q = J{"kind": "setmeta", "target": 90 + g.n(5), "key": "k1", "val": "v", "empty": true} // no such transaction
+				default:
+					if g.p(50) {
+						q = J{"kind": "setmeta", "acct": g.pick(accts), "key": "k1", "val": fmt.Sprintf("v%d", i)}
+					} else {
+						q = create(g, 0, g.pick(accts), "dave", 10)
+					}
+				}
+				q["dry"], q["ik"], q["ref"], q["phase"] = false, "", "", ph
+				if q["empty"] == true && g.p(50) {
+					q["ik"] = fmt.Sprintf("ek-%d", i)
+					keyed = append(keyed, q)
+				}
+				reqs = append(reqs, q)
+				if !g.p(20) { // (otherwise the next one overlaps this one)
+					ph++
+				}
+			}
+			ph++
+			for _, q := range keyed { // the retry of every key
+				c := J{}
+				for kk, v := range q {
+					c[kk] = v
+				}
+				c["phase"] = ph
+				reqs = append(reqs, c)
+				if g.p(60) {
+					ph++
+				}
+			}
+			if len(keyed) == 0 {
+				reqs = append(reqs, J{"kind": "setmeta", "phase": ph, "dry": false, "ik": "ek-x", "ref": "", "acct": "alice", "key": "k1", "val": "v", "empty": true},
+					J{"kind": "setmeta", "phase": ph + 1, "dry": false, "ik": "ek-x", "ref": "", "acct": "alice", "key": "k1", "val": "v", "empty": true})
+			}
+			plans = mkPlans(g, len(reqs), true)
+		case 3: // a revert whose caller goes away while it waits for the store, then — before its log is persisted — an unforced
+			// revert of ANOTHER transaction debiting the same account, and a second revert of the SAME transaction
+			name = "cancelled revert then another revert"
+			t := g.n(nf)
+			p := accts[t]
+			f := 50 + 50*g.n(2)
+			funding[t][2] = fmt.Sprint(f)
+			funding = append(funding, []string{p, "USD", fmt.Sprint(f)}) // transaction 3: the account is funded twice
+			ph := 0
+			if g.p(75) { // … and has spent one of the two: it holds what ONE revert takes
+				reqs = append(reqs, J{"kind": "create", "phase": 0, "dry": false, "ik": "", "ref": "", "src": p, "via": "lit", "dst": "dave", "amount": f})
+				ph = 1
+			}
+			ia := len(reqs)
+			reqs = append(reqs, J{"kind": "revert", "phase": ph, "dry": false, "ik": "", "ref": "", "target": t, "force": false})
+			ib, ic := -1, -1
+			if g.p(80) {
+				ib = len(reqs)
+				reqs = append(reqs, J{"kind": "revert", "phase": ph, "dry": false, "ik": "", "ref": "", "target": 3, "force": false})
+			}
+			if ib < 0 || g.p(70) {
+				ic = len(reqs)
+				reqs = append(reqs, J{"kind": "revert", "phase": ph, "dry": false, "ik": "", "ref": "", "target": t, "force": false})
+			}
+			if g.p(30) {
+				reqs = append(reqs, J{"kind": "revert", "phase": ph + 1, "dry": false, "ik": "", "ref": "", "target": t, "force": g.p(50)})
+			}
+			plans = mkPlans(g, len(reqs), true)[:4]
+			for k, pl := range plans {
+				if k%2 == 0 {
+					pl["crash"], pl["fail"] = -1, -1
+					delete(pl, "fail_read")
+					pl["cancel"], pl["cancel_req"], pl["slow_store"] = 1, ia+1, true
+				}
+			}
+			var g1, g2 []J
+			g1, g2 = append(g1, goal(ia, "waiting")), append(g2, goal(ia, "waiting"))
+			if ib >= 0 {
+				g1 = append(g1, goal(ib, "finish"))
+			}
+			if ic >= 0 {
+				g1, g2 = append(g1, goal(ic, "finish")), append(g2, goal(ic, "finish"))
+			}
+			if ib >= 0 {
+				g2 = append(g2, goal(ib, "finish"))
+			}
+			plans = append(plans,
+				directed(g, J{"cancel": 1, "cancel_req": ia + 1, "slow_store": true}, g1...),
+				directed(g, J{"cancel": 1, "cancel_req": ia + 1, "slow_store": true}, g2...),
+				directed(g, J{"slow_store": true}, g1...)) // the same overlap without the cancellation
+		default: // restart WITHOUT death: the commander is stopped gracefully while a batch is inside InsertLogs, a new one is
+			// initialised on the same store, further requests run
+			name = "graceful stop while a batch is being written"
+			k := 1 + g.n(3)
+			perm := []string{"alice", "bob", "carol"}
+			for i := 2; i > 0; i-- {
+				j := g.n(i + 1)
+				perm[i], perm[j] = perm[j], perm[i]
+			}
+			for i := 0; i < k; i++ {
+				if g.p(25) {
+					reqs = append(reqs, J{"kind": "setmeta", "phase": 0, "dry": false, "ik": "", "ref": "", "acct": perm[i], "key": "k1", "val": fmt.Sprintf("v%d", i)})
+				} else {
+					reqs = append(reqs, create(g, 0, perm[i], "dave", 10+10*g.n(3)))
+				}
+			}
+			reqs = append(reqs, create(g, 1, g.pick(accts), "dave", 10))
+			if g.p(60) {
+				reqs = append(reqs, J{"kind": "setmeta", "phase": 1, "dry": false, "ik": "", "ref": "", "acct": "bob", "key": "k2", "val": "w"})
+			}
+			if g.p(50) {
+				reqs = append(reqs, create(g, 2, g.pick(accts), "erin", 10))
+			}
+			for pI := 0; pI < 5; pI++ {
+				plans = append(plans, J{"seed": g.next() % 1000000, "crash": -1, "fail": -1, "plan": []int{}, "coarse": g.p(30), "close": 1 + g.n(9*k), "slow_store": g.p(70)})
+			}
+			plans = append(plans, directed(g, J{"close": 1, "slow_store": true}, goal(0, "waiting")),
+				directed(g, J{"close": 1, "slow_store": true}, goal(k-1, "waiting"), goal(0, "commit")))
+		}
+		emit(J{"requests": reqs, "funding": funding, "metadata": meta, "plans": plans, "twin": false, "series": 3, "shape": e % nShapes3, "name": name})
 	}
 }
 
